@@ -410,6 +410,14 @@ def stuck_class(run):
                 cls.add("waiting-obs-never-admitted")
         elif status == "RUNNING":
             cls.add("obs-never-finishes-observing")
+    # An observation whose own volume exceeds the tiering threshold can never
+    # be handed to the scheduler (known finding): classify that first.
+    thr = getattr(run.sim.buffer, "threshold", 0.6)
+    cap = run.case["cfg"]["hot"][0]
+    unprocessed = list(s["cold_stored"]) + list(s["hot_stored"]) + \
+        [x for x in (s["cold_transfer"], s["hot_transfer"]) if x]
+    if any(info["obs"][n]["size"] / cap > thr for n in unprocessed):
+        return "stuck:observation-larger-than-tiering-threshold"
     if s["cold_stored"] or s["cold_transfer"]:
         cls.add("obs-stranded-in-cold")
     if s["hot_stored"]:
@@ -671,8 +679,9 @@ class Admission:
         # all begin_obs of instant t share the boundary snapshot of t; the
         # cumulative parts use what was begun earlier in the same instant.
         same = [x for x in self.begun_now if x[0] == t]
-        arrays_used = snap["tel_use"] + sum(self.info["obs"][n]["demand"]
-                                            for _, n in same)
+        # arrays freed earlier in the same telescope pass are legitimately
+        # reusable: judge against the use at the moment of the start
+        arrays_used = c["use_before"]
         ing_pending = sum(self.info["obs"][n]["ingest"] for _, n in same)
         self.begun_now.append((t, name))
         if t + EPS < oi["est"]:
@@ -829,6 +838,7 @@ class Reservations:
         self.mn = alg.get("min", 1)
         self.split = alg.get("split")
         self.M = len(run.case["cfg"]["machines"])
+        self.adversarial = alg["kind"].startswith("adv")
         self.live = {}           # name -> frozenset of machine ids (R0)
         self.flag = set()
         self.max_live = 0
@@ -850,7 +860,8 @@ class Reservations:
         while self.nalloc < len(acts):
             a = acts[self.nalloc]
             self.nalloc += 1
-            if a["kind"] == "alloc" and not a["ingest"]:
+            if a["kind"] == "alloc" and not a["ingest"] \
+                    and a["exc"] is None and not self.adversarial:
                 want = "idle:%s" % a["observation"]
                 if a["pool"] != want:
                     self._v(run, "C09.runs-on-own-reservation",
@@ -903,7 +914,8 @@ class Reservations:
         for name, R0 in self.live.items():
             cur = {m.id for m in idle[name]}
             occ = {mid for mid, os_ in owners.items() if name in os_}
-            if (cur | occ) != R0:
+            if (cur | occ) != R0 and not (self.adversarial
+                                          and R0 <= (cur | occ)):
                 self._v(run, "C09.reservation-stable",
                         "reservation-%s-machine" % (
                             "lost" if R0 - (cur | occ) else "gained"),
